@@ -1391,16 +1391,16 @@ def fuse_genexps(tree: ast.Module) -> None:
                 return n
             x = g.target.id
             occ = [m for m in ast.walk(n.elt) if isinstance(m, ast.Name) and m.id == x]
-            if len(occ) != 1:
-                return n
             inner = g.iter
+            if len(occ) != 1 and not (occ and _read_only(inner.elt)):
+                return n
             inner_names = {m.id for m in ast.walk(inner.generators[0].target) if isinstance(m, ast.Name)}
             if inner_names & {m.id for m in ast.walk(n.elt) if isinstance(m, ast.Name)}:
                 return n
 
             class S(ast.NodeTransformer):
                 def visit_Name(self, m: ast.Name):
-                    return copy.deepcopy(inner.elt) if m is occ[0] else m
+                    return copy.deepcopy(inner.elt) if any(m is o for o in occ) else m
             n.elt = S().visit(n.elt)
             n.generators = inner.generators
             return n
@@ -1745,4 +1745,64 @@ def nonneg_clamp(tree: ast.Module) -> None:
                                         par.args[1].left = b[0].value
                                         del body[i]
                                         break
+    ast.fix_missing_locations(tree)
+
+
+def fuse_comp_temps(tree: ast.Module) -> None:
+    """t = [G(s) for s in X]   (read-only element and iterable, t assigned once) followed directly by statements that use t only as the iterable
+    of their own single-generator comprehensions: each of those iterates X itself ([F(G(s)) for s in X]); the temporary list disappears.  X must
+    not be stored to by those statements."""
+    for fn in [x for x in ast.walk(tree) if isinstance(x, (ast.FunctionDef, ast.AsyncFunctionDef))]:
+        for holder in ast.walk(fn):
+            for fld in ("body", "orelse", "finalbody"):
+                body = getattr(holder, fld, None)
+                if not (isinstance(body, list) and body and isinstance(body[0], ast.stmt)):
+                    continue
+                i = 0
+                while i < len(body):
+                    st = body[i]
+                    i += 1
+                    if not (isinstance(st, ast.Assign) and len(st.targets) == 1 and isinstance(st.targets[0], ast.Name)):
+                        continue
+                    v = st.value
+                    if isinstance(v, ast.Call) and isinstance(v.func, ast.Name) and v.func.id in ("list", "tuple") and len(v.args) == 1 and isinstance(v.args[0], ast.GeneratorExp):
+                        v = v.args[0]
+                    if not (isinstance(v, (ast.ListComp, ast.GeneratorExp)) and len(v.generators) == 1 and not v.generators[0].ifs and _read_only(v.elt) and _read_only(v.generators[0].iter)):
+                        continue
+                    t = st.targets[0].id
+                    if sum(1 for n in ast.walk(fn) if isinstance(n, ast.Name) and n.id == t and isinstance(n.ctx, (ast.Store, ast.Del))) != 1:
+                        continue
+                    loads = [n for n in ast.walk(fn) if isinstance(n, ast.Name) and n.id == t and isinstance(n.ctx, ast.Load)]
+                    if not loads:
+                        continue
+                    # consecutive following statements containing all the loads
+                    j = i
+                    seen = 0
+                    xtext = ast.unparse(v.generators[0].iter)
+                    ok = True
+                    while j < len(body) and seen < len(loads):
+                        here = [n for n in ast.walk(body[j]) if any(n is l for l in loads)]
+                        if not here:
+                            break
+                        for l in here:
+                            par = None
+                            for q in ast.walk(body[j]):
+                                if isinstance(q, ast.comprehension) and q.iter is l:
+                                    par = q
+                            if par is None:
+                                ok = False
+                        for n in ast.walk(body[j]):
+                            if isinstance(n, (ast.Attribute, ast.Name, ast.Subscript)) and isinstance(getattr(n, "ctx", None), (ast.Store, ast.Del)) and ast.unparse(n) == xtext:
+                                ok = False
+                        seen += len(here)
+                        j += 1
+                    if not ok or seen != len(loads):
+                        continue
+                    for k in range(i, j):
+                        for q in ast.walk(body[k]):
+                            if isinstance(q, ast.comprehension) and any(q.iter is l for l in loads):
+                                q.iter = ast.GeneratorExp(elt=copy.deepcopy(v.elt), generators=copy.deepcopy(v.generators))
+                    del body[i - 1]
+                    i -= 1
+        fuse_genexps(fn)
     ast.fix_missing_locations(tree)
